@@ -82,6 +82,14 @@ func (w *wsProto) Pack(m erpc.Message) error {
 // Unpack reads bytes from the connection to the Message.
 // NOTE: Concurrent unsafe!
 func (w *wsProto) Unpack(m erpc.Message) error {
+	// A frame announcing more than the message size limit is refused when its header has
+	// been read, before its payload is buffered (the websocket library's own bound is
+	// 32 MiB whatever the limit is).
+	if limit := socket.MessageSizeLimit(); limit < ws.DefaultMaxPayloadBytes {
+		w.conn.MaxPayloadBytes = int(limit)
+	} else {
+		w.conn.MaxPayloadBytes = ws.DefaultMaxPayloadBytes
+	}
 	err := ws.Message.Receive(w.conn, w.subConn.rBytes)
 	if err != nil {
 		return err
